@@ -234,12 +234,17 @@ class WaiterObserver:
             return
         conns = self.pool.connections
         n = self.n
+        # a connection some request has been handed is about to be used: neither
+        # evictable nor (HTTP/1.1) available to anybody else
+        assigned = {id(getattr(r, "connection", None))
+                    for r in list(getattr(self.pool, "_requests", []))
+                    if getattr(r, "connection", None) is not None}
         for r in q:
             origin = r.request.url.origin
             why = None
             if n is None or len(conns) < n:
                 why = "room-for-new-connection"
-            elif any(c.is_idle() for c in conns):
+            elif any(c.is_idle() and id(c) not in assigned for c in conns):
                 why = "idle-connection-evictable"
             elif any(c.can_handle_request(origin) and c.is_available() for c in conns):
                 c = next(c for c in conns if c.can_handle_request(origin) and c.is_available())
